@@ -186,8 +186,17 @@ def disorder_p1():
                              labels=["Cu1", "Au1", "O1", "H1", "H2"], occupation=np.array([0.6, 0.4, 1.0, 1.0, 1.0]))
 
 
+def origin_atom_r3m():
+    """R-3 (hexagonal axes): ONE atom, exactly at the origin - its fractional coordinates are (0, 0, 0) in both settings, so a setting
+    switch changes the cell and the operations but not a single coordinate"""
+    return xtal.make_crystal(148, "H", (9.0, 9.0, 12.0, 90.0, 90.0, 120.0), ["Hg"], np.array([[0.0, 0.0, 0.0]]), labels=["Hg1"])
+
+
 def initial(kind):
     from chmpy.crystal import Crystal
+
+    if kind == "origin_atom_H":
+        return origin_atom_r3m()
 
     if kind == "disorder_P1":
         return disorder_p1()
@@ -485,7 +494,7 @@ def aliasing_worker(part, job):
 
 
 def run(ctx):
-    kinds = ["water_H", "water_R", "water_H_cif", "r3c_example", "ammonia_water_H", "near_axis_H", "disorder_P1"]
+    kinds = ["water_H", "water_R", "water_H_cif", "r3c_example", "ammonia_water_H", "near_axis_H", "disorder_P1", "origin_atom_H"]
     max_depth = 8 if ctx.thorough else 6
     cap = 20000 if ctx.thorough else 1500
     ctx.bounds = {"alphabet": ALPHABET, "structures": kinds, "max_depth": max_depth, "state_cap": cap}
